@@ -376,7 +376,7 @@ def _run(ctx):
             ctx.guard(run_history, ctx, h, witness={"history": h})
             ctx.case(h, nontrivial=False)
     ctx.sample(fixed[4])
-    for _ in range(ctx.budget(4000, 250000)):
+    for _ in range(ctx.budget(4000, 1200000)):
         h = rand_history(rng, rng.choice([1, 2, 3, 5, 8, 12, 20, 30]))
         ctx.guard(run_history, ctx, h, witness={"history": h})
         ctx.case(h, nontrivial=nontrivial(h))
